@@ -6,7 +6,7 @@
    resolver tables [e]; [find_proxy] is NewProxyResolver's entry-point rule followed by FindProxyForURL
    (script, then the checks on the result); [parse_proxy], [proxies_first], [proxy_url] are pac/proxy.go. *)
 From Coq Require Import Permutation.
-From G14 Require Import Model Spec Check ProofsBasic ProofsPool ProofsParse ProofsGlob ProofsNet ProofsAll Obligations.
+From G14 Require Import Model Spec Check ProofsBasic ProofsPool ProofsParse ProofsGlob ProofsNet ProofsAll PinnedExpected Obligations.
 Open Scope N_scope.
 
 (* shExpMatch is shell-expression (glob) matching: for every pattern made of literals, '.', '*', '?' and
@@ -55,22 +55,26 @@ Print Assumptions T14_localHostOrDomainIs.
    (only: a shExpMatch pattern with a regexp metacharacter other than . * ?, or a line terminator in the text) *)
 Theorem T14_helpers_meet_reference : forall e h args,
   env_quads e -> spec_call e h args = OutsideModel \/ call_helper e h args = spec_call e h args.
-Proof. exact (helpers_meet_reference ob_shexp_rewrites ob_shexp_anchored ob_ip_octet_max ob_convert_shape). Qed.
+Proof. exact (helpers_meet_reference ob_shexp_rewrites ob_shexp_anchored ob_ip_octet_max ob_convert_shape
+                                      ob_my_ip_default ob_client_version). Qed.
 Print Assumptions T14_helpers_meet_reference.
 
-(* ... and so does every decision-tree script, through the entry-point rule and the result checks *)
+(* ... and so does every decision-tree script: the resolver exists iff exactly one entry point is defined,
+   and FindProxyForURL returns the ASCII string the script's entry point returns under the reference
+   semantics, an error for any other value *)
 Theorem T14_script_meets_reference : forall e has_fn has_fnx t url hostname url_hostname,
   env_quads e ->
-  find_proxy (spec_call e) has_fn has_fnx t url hostname url_hostname = Some PacOutside \/
+  spec_find_proxy e has_fn has_fnx t url hostname url_hostname = Some PacOutside \/
   find_proxy (call_helper e) has_fn has_fnx t url hostname url_hostname =
-  find_proxy (spec_call e) has_fn has_fnx t url hostname url_hostname.
-Proof. exact (find_proxy_meets_reference ob_shexp_rewrites ob_shexp_anchored ob_ip_octet_max ob_convert_shape). Qed.
+  spec_find_proxy e has_fn has_fnx t url hostname url_hostname.
+Proof. exact (find_proxy_meets_reference ob_shexp_rewrites ob_shexp_anchored ob_ip_octet_max ob_convert_shape
+                                         ob_my_ip_default ob_client_version ob_result_checks ob_entry_both_is_error). Qed.
 Print Assumptions T14_script_meets_reference.
 
 (* sortIpAddressList: a permutation of its entries, IPv6 first, each family ascending *)
 Theorem T14_sort_is_sorted_perm : forall l,
   Permutation l (sort_ips l) /\ sorted_by ip_le (map fst (sort_ips l)) = true.
-Proof. exact (fun l => conj (sort_perm l) (sort_sorted l)). Qed.
+Proof. exact (fun l => conj (sort_perm l) (sort_sorted_reference l ob_sort_ipv6_first)). Qed.
 Print Assumptions T14_sort_is_sorted_perm.
 
 (* a non-string or non-ASCII result is an error; an ASCII string is returned as it is *)
@@ -123,6 +127,12 @@ Theorem T14_pool_exclusive : forall ls s,
   (forall c v, In (c, v) (held s) -> ~ In v (free s)).
 Proof. exact pool_exclusive. Qed.
 Print Assumptions T14_pool_exclusive.
+
+(* The helper bodies and Go functions the model transcribes are the ones that were read
+   (everything not parameterised through Tables.v is pinned as text). *)
+Theorem T14_transcribed_bodies_as_read : pinned = PinnedExpected.pinned_expected.
+Proof. exact ob_pinned. Qed.
+Print Assumptions T14_transcribed_bodies_as_read.
 
 (* Non-vacuity: concrete calls in the domain, with the expected answers. *)
 Example T14_example :
